@@ -149,6 +149,19 @@ fn random_value(rng: &mut Rng, base: u64, spread: u64) -> Vec<(u64, u64)> {
     v
 }
 
+
+/// a canonical value with exactly `k` ranges (lengths 1..=4, gaps 2..=5) starting at `base`
+fn many_value(rng: &mut Rng, k: usize, base: u64) -> Vec<(u64, u64)> {
+    let mut v = Vec::with_capacity(k);
+    let mut s = base.max(2);
+    for _ in 0..k {
+        let e = s + rng.range(0, 3);
+        v.push((s, e));
+        s = e + *rng.pick(&[2, 2, 3, 4, 5]);
+    }
+    v
+}
+
 impl Prop for C24 {
     fn id(&self) -> &'static str {
         "C24"
@@ -158,7 +171,7 @@ impl Prop for C24 {
          empty/full/alternating in quick) x every head 0..13 x every batch size 0..13; the same through \
          `pruned + stored` with the subset split into stored/pruned parts; random values of 0..4 ranges at \
          1, mid-u64 and ending at u64::MAX with heads at/around every boundary and u64::MAX and batch sizes \
-         0, 1, small, 512, u64::MAX; the REAL Worker::fetch_next_batch + real InMemoryStore::insert of the \
+         0, 1, small, 512, u64::MAX; synced values with MANY ranges (9..64) with heads at/around the top and batch sizes around the gap below the highest range; the REAL Worker::fetch_next_batch + real InMemoryStore::insert of the \
          requested batch on an honest 16-header chain with the subset split into stored / pruned heights. \
          The store-ahead-of-head situation (where the one known finding lives) is sampled at ~1/40. Non-trivial = synced non-empty and limit > 0; distinct = distinct \
          (op, result)."
@@ -215,6 +228,45 @@ impl Prop for C24 {
                         if pm == 0 { "worker/nothing-pruned" } else { "worker/pruned" },
                         m != 0 && limit > 0,
                     );
+                }
+            }
+        }
+        // synced values with MANY ranges (size-dependent code paths), through the function and
+        // through `pruned + stored` with the ranges dealt alternately to the two operands
+        let sizes: Vec<usize> = if thorough { (9..=64).collect() } else { vec![9, 10, 16, 17, 24, 33, 64] };
+        for (n, &k) in sizes.iter().enumerate() {
+            let base = match n % 3 {
+                0 => 2,
+                1 => (1u64 << 40) + rng.range(0, 5),
+                _ => u64::MAX - 9 * k as u64 - 40,
+            };
+            let v = many_value(rng, k, base);
+            let sv = fmt_vec(&v);
+            let (top_s, top_e) = v[k - 1];
+            let pen_e = v[k - 2].1;
+            let gap = top_s - 1 - pen_e;
+            let (st, pr): (Vec<_>, Vec<_>) = {
+                let mut a = vec![];
+                let mut b = vec![];
+                for (i, r) in v.iter().enumerate() {
+                    if i % 2 == 0 { a.push(*r) } else { b.push(*r) }
+                }
+                (a, b)
+            };
+            for head in [top_e, top_e + 1, top_e + 2, top_e + 7, top_e.saturating_add(600), top_s, pen_e] {
+                for limit in [0, 1, 2, gap.saturating_sub(1), gap, gap + 1, 7, 512, u64::MAX] {
+                    let tag = if top_e < head { "many/behind" } else if top_e == head { "many/caught-up" } else { "many/store-ahead" };
+                    if tag == "many/store-ahead" && !rng.chance(1, 10) {
+                        continue;
+                    }
+                    out.op(format!("fetch head={head} synced={sv} limit={limit}"), tag, limit > 0);
+                    if rng.chance(1, 3) {
+                        out.op(
+                            format!("batch head={head} stored={} pruned={} limit={limit}", fmt_vec(&st), fmt_vec(&pr)),
+                            "many/batch",
+                            limit > 0,
+                        );
+                    }
                 }
             }
         }
